@@ -42,7 +42,9 @@ POSTFIX_CHARS = list("abcxyzABCXYZ0123456789_-")
 # half of the postfixes come from a small pool of names that are prefixes / suffixes /
 # underscore-delimited tails of one another (particle ids such as "1", "X02_1", "11"),
 # so that any lookup by partial match is exposed
-POSTFIX_POOL = ["1", "2", "11", "01", "1_1", "X02_1", "a_1", "b_a_1", "1_", "_1", "a", "a_b", "b", "A", "x-1", "1-1", "meta", "fractions", "1_meta"]
+POSTFIX_POOL = ["1", "2", "11", "01", "1_1", "X02_1", "a_1", "b_a_1", "1_", "_1", "a", "a_b", "b", "A", "x-1", "1-1", "meta", "fractions", "1_meta",
+                # names that differ only in characters outside [A-Za-z0-9_] or in case
+                "x1", "1-", "-1", "a-b", "ab", "a-", "-a", "1--1", "1-_1", "B", "A_B", "a_B"]
 postfix = st.one_of(
     st.lists(st.sampled_from(POSTFIX_CHARS), min_size=1, max_size=12).map("".join),
     st.sampled_from(POSTFIX_POOL),
